@@ -607,6 +607,7 @@ static void run_part() {
         // the PNM writer static_asserts the exact view type gray1_image_t::view_t: const and stepped
         // gray1 views are rejected at compile time (probes c12_probe 1, 2)
         o.type = "gray1"; o.bits = 1; sweep_bits<gil::pnm_tag, gil::gray1_image_t, B_IMG | B_SUB>(o, info);
+        o.type = "gray1"; reuse_bits<gil::pnm_tag, gil::gray1_image_t>(o, info);
     }
 }
 #endif
